@@ -1,4 +1,4 @@
 INIT Init
 NEXT Next
-INVARIANTS LiteralLaw SingletonLaw EmptyLaw ErrLaw LengthLaw
+INVARIANTS LiteralLaw SingletonLaw EmptyLaw ErrLaw LengthLaw NilLaw BadLaw HashLaw
 CHECK_DEADLOCK FALSE
